@@ -329,12 +329,12 @@ def C07(ctx):
 
 # =============================================================================== helpers
 def thresholds(k, gc):
-    """integer thresholds the float comparisons of LocalBioFilter reduce to (same float
-    expressions as the code; Lean model takes them as the configuration)."""
+    """the GC bounds as the exact fractions of the doubles the real filter is given; the Lean model derives the integer
+    thresholds itself with its own model of double-precision rounding (Model/Float.lean, floatGcRule)."""
     if gc is None:
         return "-"
     lo, hi = gc
-    return "%d,%d,%d" % (math.ceil(lo * k), math.floor(hi * k), math.floor(k - lo * k))
+    return "%d/%d,%d/%d" % (float(lo).as_integer_ratio() + float(hi).as_integer_ratio())
 
 
 def rand_cfg(rng, k, allow_bad=False):
@@ -1224,6 +1224,70 @@ def GENOP(ctx):
             continue
         ctx.corr(line)
         ctx.case(line, True, "gen:" + f)
+
+
+def GENBF(ctx):
+    """validation of the translator and of the float model on dsw/biofilter.py: the definitions GENERATED from
+    LocalBioFilter.__init__ / valid (DswModel.Gen.Biofilter, driver operation `gen`) against the real class - constructor
+    calls (accepted and rejected), `valid` on objects of every configuration (float, int and degenerate GC bounds, motif
+    lists with palindromes / empty motifs / lower-case letters, run limits 0..k+1), strings with foreign characters, both
+    modes - and the float primitives themselves (`fop`: double products / differences / comparisons / int())."""
+    rng = ctx.rng
+    if not _gen_current(ctx, "biofilter"):
+        return
+
+    def dbl():
+        c = rng.random()
+        if c < 0.5:
+            return rng.choice([0.0, 0.1, 0.2, 0.25, 0.28, 0.3, 1 / 3, 0.4, 0.45, 0.5, 0.55, 0.6, 2 / 3, 0.7, 0.72, 0.75, 0.8, 0.9, 1.0])
+        if c < 0.8:
+            return rng.random()
+        if c < 0.9:
+            return rng.randrange(0, 40) / rng.choice([7, 10, 16, 100])
+        return rng.choice([1e-320, 5e-324, 1e300, 2.0 ** 52 + 1, 0.1 + 0.2, 1e16 + 2, -0.5, 3.0])
+
+    for it in range(ctx.n(900, 20000)):
+        # ---- float primitives
+        op = rng.choice(["mul", "mul", "sub", "add", "lt", "le", "eq", "int"])
+        x = dbl()
+        y = rng.choice([rng.randrange(0, 60), rng.randrange(0, 60), rng.randrange(-5, 10 ** 6), 2 ** 53 + rng.randrange(100),
+                        rng.randrange(2 ** 60, 2 ** 70), dbl()])
+        if rng.random() < 0.3:
+            x, y = y, x
+        line = "fop %s %s %s" % (op, proto.pv_enc(x), proto.pv_enc(y))
+        ctx.corr(line)
+        ctx.case(line, isinstance(x, float) or isinstance(y, float), "fop:" + op)
+    for it in range(ctx.n(700, 15000)):
+        k = rng.choice([0, 1, 2, 3, 4, 5, 6, 8, 10, 12, 25])
+        run = rng.choice([None, None, 0, 1, 2, 3, max(k - 1, 0), k, k + 1])
+        gc = None
+        c = rng.random()
+        if c < 0.6:
+            lo, hi = dbl(), dbl()
+            gc = [lo, hi] if rng.random() < 0.8 else [hi, lo]
+        elif c < 0.7:
+            gc = rng.choice([[0, 1], [1, 1], [0.0, 1], [0, 0.5]])          # ints among the bounds
+        motifs = None
+        if rng.random() < 0.6:
+            pool = ["GC", "AT", "CG", "GATC", "ACGT", "AATT", "T", "A", "", "AAT", "ACA", "GG", "GAATTC", "ac", "aC", "N", "A-T"]
+            motifs = [rng.choice(pool) if rng.random() < 0.6 else gen.rand_dna(rng, rng.choice([1, 2, 3, 4]))
+                      for _ in range(rng.choice([0, 1, 1, 2, 3]))]
+        ctor = "gen LocalBioFilter %s %s %s %s" % tuple(proto.pv_enc(a) for a in (k, run, gc, motifs))
+        out = ctx.corr(ctor)
+        ctx.case(ctor, out.startswith("ok"), "gen:LocalBioFilter")
+        obj = {"screen_name": "Local", "observed_length": k, "max_homopolymer_runs": run, "gc_range": gc,
+               "undesired_motifs": motifs}
+        for _ in range(3):
+            L = rng.choice([0, 1, max(k - 1, 0), k, k + 1, k + 3, 2 * k + 1, 30])
+            s_ = "".join(rng.choice("ACGT" if rng.random() < 0.95 else "ACGTNacgt-") for _ in range(L))
+            if rng.random() < 0.3 and L:
+                ch = rng.choice("ACGT")
+                i = rng.randrange(L)
+                s_ = s_[:i] + ch * rng.choice([2, 3, k + 1]) + s_[i:]
+            line = "gen LocalBioFilter.valid %s %s %s" % (proto.pv_enc(obj), proto.pv_enc(s_), proto.pv_enc(rng.random() < 0.5))
+            out = ctx.corr(line)
+            ctx.case(line, out == "ok bT", "gen:LocalBioFilter.valid")
+
 
 
 def _wire_acc(rows):
